@@ -413,13 +413,16 @@ pub fn expect_parse(ty: Ty, toks: &[Tok], r: &Reading) -> Exp {
                     {
                         return Exp::Unmodelled;
                     }
-                    if tt.len() > 6 && !tt[6..].bytes().all(|b| b == b'0') {
-                        // sub-microsecond rounding is not C18's subject
-                        return Exp::Unmodelled;
+                    // up to six digits are exact; seven to nine are rounded half up to the
+                    // microsecond and may carry (1_000_000 us = the next second, and so on up
+                    // to the date: the value is a plain sum of its parts)
+                    let int: u64 = tt.parse().unwrap();
+                    if tt.len() <= 6 {
+                        (int * 10u64.pow(6 - tt.len() as u32)) as u32
+                    } else {
+                        let div = 10u64.pow(tt.len() as u32 - 6);
+                        ((int * 2 + div) / (2 * div)) as u32
                     }
-                    let six: String = tt.chars().take(6).collect();
-                    let scale = 10u32.pow(6 - six.len() as u32);
-                    six.parse::<u32>().unwrap() * scale
                 };
                 usec = Some(v);
             }
